@@ -40,8 +40,8 @@ impl Property for C16 {
     }
     fn runs(&self, tier: Tier) -> u64 {
         match tier {
-            Tier::Quick => 60_000,
-            Tier::Thorough => 2_000_000,
+            Tier::Quick => 300_000,
+            Tier::Thorough => 10_000_000,
         }
     }
     fn gen(&self, run_seed: u64, _tier: Tier) -> Value {
@@ -138,6 +138,9 @@ impl Property for C16 {
             }
         }
     }
+    fn extra(&self, tier: Tier, seed: u64) -> Option<crate::framework::Extra> {
+        Some(parts_2_and_3(tier, seed))
+    }
     fn rule(&self) -> String {
         "part 1: case = a C01-C04/C07 static workload or a C08 dynamic history run over the real BufferedSatSolver (DIMACS writer) in front of SimChild, whose strict validator checks every instance received on its stdin: `p cnf V C`, exactly C zero-terminated clauses, every |literal| <= V (incl. the unit clauses that carry the assumptions, e.g. selectors used only in assumptions), no other text. Non-trivial = >= 1 instance validated; distinct = distinct case. Parts 2/3: see coverage.extra".into()
     }
@@ -147,4 +150,135 @@ impl Property for C16 {
     fn real_vs_stub(&self) -> Value {
         json!({"real": ["sat::BufferedSatSolver", "all solvers/encoders producing the clauses and assumptions"], "stub": ["SimChild as the external program (in-process)"], "parts_2_3": "exec_solver on the shuttle process/pipe seam and on the real OS: see coverage.extra"})
     }
+}
+
+// ---------------------------------------------------------------------------------------------
+// Parts 2 and 3
+
+use crate::cli::{self, StdoutMode};
+use crate::framework::Extra;
+use std::time::Duration;
+
+fn parts_2_and_3(tier: Tier, seed: u64) -> Extra {
+    let mut x = Extra::default();
+    let mut value = serde_json::Map::new();
+    // ---- part 2: schedule exploration in the `proc` engine (separate binary: crustabri compiled with
+    // exec_solver routed through the simulated process seam)
+    let proc_bin = std::env::var("VERIF_PROC_BIN").unwrap_or_else(|_| format!("{}/sim/target-proc/release/crustasim", crate::framework::verif_dir()));
+    if !std::path::Path::new(&proc_bin).exists() {
+        x.harness = Some(format!("part 2: the proc engine binary {} does not exist (seam build failed?)", proc_bin));
+    } else {
+        let ev = cli::scratch_dir("c16p2").join("part2.json");
+        let out = std::process::Command::new(&proc_bin)
+            .args(["run", "C16", "--tier", tier.name(), "--seed", &seed.to_string()])
+            .env("VERIF_EVIDENCE_FILE", &ev)
+            .stderr(std::process::Stdio::null())
+            .output();
+        match out {
+            Err(e) => x.harness = Some(format!("part 2: cannot run {}: {}", proc_bin, e)),
+            Ok(o) => {
+                let text = String::from_utf8_lossy(&o.stdout).to_string();
+                let mut last_violation: Option<(String, String)> = None;
+                for l in text.lines() {
+                    if let Some(rest) = l.strip_prefix("violation: ") {
+                        let (k, m) = rest.split_once(" :: ").unwrap_or((rest, ""));
+                        last_violation = Some((k.to_string(), m.to_string()));
+                    } else if let Some(rest) = l.strip_prefix("VIOLATION property=C16 replay=") {
+                        let (k, m) = last_violation.take().unwrap_or_default();
+                        x.passthrough.push((k, m, rest.trim().to_string()));
+                    } else if l.starts_with("KNOWN-FINDING:") {
+                        x.known_lines.push(l.to_string());
+                    } else if l.starts_with("HARNESS-ERROR:") {
+                        x.harness = Some(format!("part 2: {}", l));
+                    }
+                }
+                match o.status.code() {
+                    Some(0) | Some(1) => {}
+                    c => {
+                        if x.harness.is_none() {
+                            x.harness = Some(format!("part 2: proc engine exited with {:?}", c));
+                        }
+                    }
+                }
+                if let Ok(t) = std::fs::read_to_string(&ev) {
+                    if let Ok(v) = serde_json::from_str::<Value>(&t) {
+                        let c = &v["coverage"];
+                        x.evaluations += c["evaluations"].as_u64().unwrap_or(0);
+                        value.insert(
+                            "part2_schedules".into(),
+                            json!({
+                                "engine": "crustasim (proc build): real exec_solver on verif_seams under shuttle",
+                                "schedules_run": c["evaluations"],
+                                "distinct_pipe_operation_traces": c["distinct_interleavings"],
+                                "counters": c["counters"],
+                                "rule": c["rule"],
+                                "wall_s": v["wall_s"],
+                                "runs_per_hour": c["runs_per_hour"],
+                                "sample": c["samples"][0],
+                            }),
+                        );
+                    }
+                }
+                let _ = std::fs::remove_file(&ev);
+            }
+        }
+    }
+    // ---- part 3: the real OS agrees (guard off): ExternalSatSolver inside the real binary + fakesat on real pipes
+    let dir = cli::scratch_dir("c16p3");
+    let inst = dir.join("i.af");
+    std::fs::write(&inst, b"p af 4\n1 2\n2 1\n2 3\n3 4\n4 3\n").unwrap();
+    let sizes: Vec<usize> = match tier {
+        Tier::Quick => vec![0, 1024, 61_440, 65_535, 65_536, 65_537, 71_680, 1_048_576],
+        Tier::Thorough => {
+            let mut v = vec![];
+            let mut rng = Rng::new(seed ^ 0xC16);
+            for _ in 0..50 {
+                v.extend([0usize, 1024, 61_440, 65_535, 65_536, 65_537, 71_680, 1_048_576]);
+                v.push(rng.range(60_000, 140_000));
+            }
+            v
+        }
+    };
+    let mut rng = Rng::new(seed ^ 0x3C16);
+    let mut real_runs = 0u64;
+    let mut slowest = 0u128;
+    for (k, sz) in sizes.iter().enumerate() {
+        let mut args: Vec<String> = ["solve", "-f", inst.to_str().unwrap(), "-p", "DC-ST", "-a", "1", "--logging-level", "off", "--with-certificate", "--external-sat-solver", cli::fakesat_path().to_str().unwrap()]
+            .iter()
+            .map(|s| s.to_string())
+            .collect();
+        let mut opts = vec![format!("comment-bytes={}", sz), format!("seed={}", k)];
+        if rng.chance(1, 3) {
+            opts.push("comments=after".into());
+        }
+        if rng.chance(1, 3) {
+            opts.push("banner-first".into());
+        }
+        if rng.chance(1, 3) {
+            opts.push(format!("chunk={}", *rng.pick(&[1024usize, 4096, 65536])));
+        }
+        for o in &opts {
+            args.push("--external-sat-solver-opt".into());
+            args.push(o.clone());
+        }
+        let o = cli::run("crustabri", &args, StdoutMode::Pipe, Duration::from_secs(60));
+        real_runs += 1;
+        slowest = slowest.max(o.wall_ms);
+        let lines = cli::answer_lines(&o.stdout);
+        let case = json!({"real_os": {"args": args, "reply_comment_bytes": sz}});
+        if o.timed_out {
+            x.violations.push((case, Violation::new("C16", "hang", format!("real OS: `crustabri {}` did not return within 60 s with a solver reply of ~{} bytes", args.join(" "), sz)).at("part", "real-os")));
+        } else if o.code != Some(0) || lines.first().map(|s| s.as_str()) != Some("YES\n") || lines.len() != 2 {
+            x.violations.push((case, Violation::new("C16", "real-os-wrong-outcome", format!("real OS: `crustabri {}` -> exit {:?}, stdout {:?}", args.join(" "), o.code, String::from_utf8_lossy(&o.stdout))).at("part", "real-os")));
+        }
+    }
+    let _ = std::fs::remove_dir_all(&dir);
+    x.evaluations += real_runs;
+    value.insert(
+        "part3_real_os".into(),
+        json!({"processes": real_runs, "reply_sizes": if tier == Tier::Quick { json!(sizes) } else { json!("8 fixed sizes x 50 + 50 seeded sizes in 60000..140000") }, "slowest_ms": slowest as u64, "watchdog_s": 60,
+               "what": "real crustabri binary (guard off) with --external-sat-solver fakesat on real OS pipes, reply volumes around and above the 64 KiB pipe capacity, comments before/after the verdict, banner before reading stdin, chunked writes; must return the correct answer"}),
+    );
+    x.value = Value::Object(value);
+    x
 }
